@@ -409,6 +409,20 @@ def syncLoop (wf : Wf) (k : Option Nat) (sorted : List NodeId) (fail : Ck → Bo
 def runSync (wf : Wf) (k : Option Nat) (sorted : List NodeId) (fail : Ck → Bool) (fuel : Nat) : SyncOutcome × St :=
   syncLoop wf k sorted fail fuel (doPoll wf k sorted (St.init (fun _ => .idle)))
 
+/-- NOT the code: the synchronous loop with the condition `while tasks:` only, i.e. without
+    `or any(not n.done for n in exec_graph.nodes)`.  Kept as documentation (`C17_while_tasks_witness`): after a poll
+    that starts a node with an empty job list nothing is runnable although nodes downstream are not done. -/
+def syncLoopTasksOnly (wf : Wf) (k : Option Nat) (sorted : List NodeId) (fail : Ck → Bool) : Nat → St → SyncOutcome × St
+  | 0, st => (.outOfFuel, st)
+  | fuel + 1, st =>
+    if st.tasks.isEmpty then (.success, st) else
+    match runTasks fail st st.tasks with
+    | .error (c, st1) => (.raised c, { st1 with w := setW st1.w c .err })
+    | .ok st1 => syncLoopTasksOnly wf k sorted fail fuel (doPoll wf k sorted st1)
+
+def runSyncTasksOnly (wf : Wf) (k : Option Nat) (sorted : List NodeId) (fail : Ck → Bool) (fuel : Nat) : SyncOutcome × St :=
+  syncLoopTasksOnly wf k sorted fail fuel (doPoll wf k sorted (St.init (fun _ => .idle)))
+
 /-- workflow outputs: the values of every node's jobs -/
 def outputs (wf : Wf) (st : St) (n : NodeId) : List Val := (st.ns.get n).cks.map wf.body
 
